@@ -8,4 +8,5 @@ Extraction "../ocaml/C06/gen_c06.ml"
   stream_ok dyck bracket_of b_lookup_ns b_lookup_prefix b_is_default chain_rows
   parse_sax2 parse_sax1 parse_dom dom_nodes doc_lookup_ns doc_lookup_prefix doc_is_default
   m_lookup_ns m_lookup_prefix m_is_default scan_toks scan_init
+  wfs_init wfs_addLevel wfs_popTop wfs_addPrefix wfs_mapPrefixToURI
   es_init es_addLevel es_popTop es_addPrefix es_addGlobalPrefix es_mapPrefixToURI pool_value.
